@@ -12,6 +12,7 @@ written by `c06 --prep`):
 * `hhe aH aHe jH jHe nH AHe T`  (`hhex`, `cellx`, `tempx`: same ops on inputs outside the stated domain)
 * `cell jfac n T AHe mean[14] a[14] ct[19]`
 * `temp <19 scalars> mean[14] heat[2] met0[12] aH8 aHe8 ntab (T h0 he0 gain loss f[12])*ntab`
+* `newcell` (the harness starts a new history on a fresh re-used cell; no model state)
 * `abort …` (the implementation aborted while the line was prepared)
 -/
 open CMacVerif CMacVerif.Util CMacVerif.IonBalance
@@ -144,6 +145,7 @@ def step (_ : Unit) (w : List String) : Unit × String :=
             [])
         else ""
       ((), s!"temp {showF r.T} {showF r.h0} {showF r.he0} {showL met} #temp-t{r.tag}-{clampTag i.tmin r}{wt}")
+  | "newcell" => ((), "newcell")
   | "abort" => ((), "abort #impl-abort-in-prep")
   | _ => ((), "bad-op")
 
